@@ -24,7 +24,7 @@ Fixpoint chain (l : list section) (lo hi : N) : Prop :=
   end.
 
 (* all attributes but the offset are kept *)
-Definition keeps (s s' : section) : Prop := s' = s \/ s' = with_offset s (sh_offset s').
+Definition keeps (s s' : section) : Prop := s' = s \/ (s_index s <> 0 /\ s' = with_offset s (sh_offset s')).
 
 Lemma updN_mid {A} (pre : list A) x t y : updN (pre ++ x :: t) (lenN pre) y = pre ++ y :: t.
 Proof.
@@ -75,7 +75,7 @@ Proof.
     assert (Cs : csize sec1 <= sh_size sec) by (unfold csize; rewrite T2; destruct (carries sec1); lia).
     destruct (IH (pre ++ [sec1]) pos2 Hb Hc2 ltac:(lia)) as (t' & pos' & -> & K & Ch & Le).
     exists (sec1 :: t'), pos'. split; [rewrite <- app_assoc; reflexivity|]. split; [|split].
-    + constructor; [|exact K]. unfold keeps, sec1. destruct (s_index sec =? 0); [now left|right].
+    + constructor; [|exact K]. unfold keeps, sec1. destruct (N.eqb_spec (s_index sec) 0) as [Ei0|Ei0]; [now left|right; split; [exact Ei0|]].
       rewrite with_offset_small by lia. reflexivity.
     + cbn [chain]. rewrite T4. destruct (N.eqb_spec (s_index sec) 0) as [E0|E0].
       * exists pos2. split; [lia|exact Ch].
